@@ -60,6 +60,45 @@ def gen_avx2_bounds(rng, quick):
     return ops
 
 
+def gen_sparse_scalars(rng, quick):
+    """scalar multiplication / wide reduction on operands with one bit in each of two limbs (every pair of limb positions of
+    the 29-bit and of the 52-bit layout): the Karatsuba-style cross terms of the 32-bit backend cancel or wrap only for such operands"""
+    ops = []
+    def two(bits, nl):
+        i, j = rng.sample(range(nl), 2)
+        return (1 << min(252, bits * i + rng.randrange(bits))) | (1 << min(252, bits * j + rng.randrange(bits)))
+    for bits, nl in ((29, 9), (52, 5)):
+        pairs = [(i, j, k, l) for i in range(nl) for j in range(i, nl) for k in range(nl) for l in range(k, nl)]
+        if quick:
+            pairs = rng.sample(pairs, min(len(pairs), 500))
+        for (i, j, k, l) in pairs:
+            a = ((1 << min(252, bits * i + rng.randrange(bits))) | (1 << min(252, bits * j + rng.randrange(bits)))) % L
+            b = ((1 << min(252, bits * k + rng.randrange(bits))) | (1 << min(252, bits * l + rng.randrange(bits)))) % L
+            ops.append({"op": "sc.mul", "in": [le(a), le(b)], "out": "S"})
+    for a, b in ((2**174 + 2**232, 2**145 + 2**232), (2**232 + 2**203, 2**232 + 2**116), (L - 1, L - 1), (2**252, 2**252)):
+        ops.append({"op": "sc.mul", "in": [le(a % L), le(b % L)], "out": "S"})
+    for _ in range(200 if quick else 3000):
+        ops.append({"op": "sc.from_bytes_mod_order_wide", "in": [le(rng.getrandbits(512), 64)], "out": "S"})
+        ops.append({"op": "sc.mul", "in": [le(rng.randrange(L)), le(rng.randrange(L))], "out": "S"})
+    return ops
+
+
+def gen_big_msm(rng, n):
+    """one multiscalar multiplication with n terms (the radix-2^8 Pippenger regime starts at 800) whose scalars contain
+    the extreme digits -128 / 127 / 128; cheap for the specification: all points are small multiples of one point"""
+    ops = [{"op": "reset"}, {"op": "ed.mul_base", "in": [le(rng.randrange(1, L))], "out": "M0"}, {"op": "ed.basepoint", "out": "Q"}]
+    names = ["M0"]
+    for i in range(1, n):
+        ops.append({"op": "ed.add", "in": [names[-1], "Q"], "out": "M%d" % i})
+        names.append("M%d" % i)
+    sc = []
+    for i in range(n):
+        sc.append(le(rng.choice([128, 127, 129, 255, 256, 128 << 8, 128 << 16, (128 << 240) % L, rng.randrange(1 << 16), 0, 1])))
+    for op in ("ed.vartime_multiscalar_mul", "ed.optional_multiscalar_mul"):
+        ops.append({"op": op, "scalars": sc, "points": names, "out": "R"})
+    return ops
+
+
 def gen_formulas(backend, rng, quick):
     """coordinates with every limb at the type invariant's bound (Bounds.tla: Red), fed to every group formula"""
     b = BACKENDS[backend]
@@ -109,6 +148,9 @@ def run(ck):
         if b == "v512":
             kernel += [{"op": "reset"}] + c01.gen_vec("ifma", ck.rng, quick)
         kernel += [{"op": "reset"}] + gen_formulas(b, ck.rng, quick)      # (3)
+        kernel += [{"op": "reset"}] + gen_sparse_scalars(ck.rng, quick)   # scalar kernels on sparse operands
+        if not quick and b in ("s64", "s32", "v2"):
+            kernel += gen_big_msm(ck.rng, 801)                             # radix-2^8 Pippenger in a checked build
         sp = os.path.join(ck.workdir, cid + ".kernel.script.ndjson")
         write_script(sp, kernel)
         tp = os.path.join(ck.workdir, cid + ".checked.kernel.trace.ndjson")
